@@ -23,7 +23,7 @@ func init() {
 
 func Create(engine engine.Engine, owner key.TargetID, lc info.LightCone) {
 	engine.Events().BattleStart.Subscribe(func(event event.BattleStart) {
-		for char := range event.CharInfo {
+		for _, char := range engine.Characters() { // team order, not map order
 			engine.ModifyEnergy(info.ModifyAttribute{
 				Key:    FineFruit,
 				Target: char,
